@@ -81,10 +81,11 @@ Record wstate := mkw {
   ws_hdr : header;          (* type, running length (words), running box *)
   ws_recnum : Z;            (* u32, number of the next record *)
   ws_dirty : bool;
-  ws_has_shx : bool
+  ws_has_shx : bool;
+  ws_interrupted : bool     (* `finalize_interrupted`: a finalize started and did not complete *)
 }.
 
-Definition w_new (has_shx : bool) : wstate := mkw header_default 1 true has_shx.
+Definition w_new (has_shx : bool) : wstate := mkw header_default 1 true has_shx false.
 
 (** Sentinels of the running box (min = +inf, max = -inf). *)
 Definition sentinel_box : bbox :=
@@ -149,11 +150,17 @@ Definition write_shape_plan (st : wstate) (s : shape)
   else
     let st0 := if first
                then mkw (set_type_box (ws_hdr st) t sentinel_box) (ws_recnum st) (ws_dirty st) (ws_has_shx st)
+                        (ws_interrupted st)
                else st in
     let hdr_ops :=
       if first then
         (Shp, WSeekStart 0) :: on Shp (header_chunks (ws_hdr st0))
         ++ (if ws_has_shx st then (Shx, WSeekStart 0) :: on Shx (header_chunks (ws_hdr st0)) else [])
+      else [] in
+    (* after an interrupted finalize both destinations are re-positioned at their end *)
+    let repos_ops :=
+      if ws_interrupted st
+      then (Shp, WSeekEnd) :: (if ws_has_shx st then [(Shx, WSeekEnd)] else [])
       else [] in
     let words := record_words s in
     let rec_ops :=
@@ -161,8 +168,8 @@ Definition write_shape_plan (st : wstate) (s : shape)
       ++ (if ws_has_shx st then on Shx (index_entry_chunks (h_len (ws_hdr st0)) (wrap_i32 words)) else []) in
     let h1 := set_box (set_len (ws_hdr st0) (h_len (ws_hdr st0) + (wrap_i32 words + 4)))
                       (grow_from_shape (h_box (ws_hdr st0)) s) in
-    let st1 := mkw h1 (ws_recnum st0 + 1) true (ws_has_shx st) in
-    Ok (st0, hdr_ops ++ rec_ops, st1).
+    let st1 := mkw h1 (ws_recnum st0 + 1) true (ws_has_shx st) false in
+    Ok (st0, hdr_ops ++ repos_ops ++ rec_ops, st1).
 
 Definition w_write_shape (st : wstate) (w : world) (s : shape) : res unit * wstate * world :=
   match write_shape_plan st s with
@@ -194,12 +201,15 @@ Definition finalize_ops (st : wstate) : list (dest * wop) :=
       then (Shx, WSeekStart 0) :: on Shx (header_chunks (shx_header st)) ++ [(Shx, WSeekEnd); (Shx, WFlush)]
       else []).
 
+Definition set_interrupted (st : wstate) (b : bool) : wstate :=
+  mkw (ws_hdr st) (ws_recnum st) (ws_dirty st) (ws_has_shx st) b.
+
 Definition w_finalize (st : wstate) (w : world) : res unit * wstate * world :=
   if negb (ws_dirty st) then (Ok tt, st, w) else
   let '(r, w') := run_ops (finalize_ops st) w in
   match r with
-  | Ok _ => (Ok tt, mkw (ws_hdr st) (ws_recnum st) false (ws_has_shx st), w')
-  | _ => (r, st, w')
+  | Ok _ => (Ok tt, mkw (ws_hdr st) (ws_recnum st) false (ws_has_shx st) false, w')
+  | _ => (r, set_interrupted st true, w')
   end.
 
 (** `Drop`: finalize, result ignored. *)
